@@ -21,7 +21,8 @@ class RecTracer(object):
         rl = conn._recordLayer
         wdir = "c2s" if ep == "c" else "s2c"
         rdir = "s2c" if ep == "c" else "c2s"
-        st = {"w": rl._writeState, "r": rl._readState, "last_wlen": -1}
+        st = {"w": rl._writeState, "r": rl._readState, "last_wlen": -1,
+              "orig_recv": rl.recvRecord, "orig_send": rl.sendRecord}
         tr = self
 
         def poll():
